@@ -47,6 +47,11 @@ def flagsByVerb (verb : Nat) : Nat :=
   | some e => e.2.getD 0
   | none => Gen.uu_verbDefault.getD 0
 
+/-- `MarshalText`, `String` (both `Formatter(nil, id, 0)`) and `Format(f, verb)` -/
+def marshalText (i : ID) : Bytes := format [] i (isURN 0)
+def toString (i : ID) : Bytes := format [] i (isURN 0)
+def formatVerb (i : ID) (verb : Nat) : Bytes := format [] i (isURN (flagsByVerb verb))
+
 /-- `ID.URN()` -/
 def ID.urn (i : ID) : Bytes := format Gen.uu_URNPrefix i false
 
